@@ -4,10 +4,12 @@ import (
 	"encoding/json"
 	"fmt"
 	"os"
+	"os/exec"
 	"os/signal"
 	"path/filepath"
 	"sort"
 	"strconv"
+	"strings"
 	"sync/atomic"
 	"syscall"
 	"testing"
@@ -42,6 +44,9 @@ type Engine[P any] struct {
 	// NeedsBubbleExit is false for engines whose deadlocked runs cannot leave
 	// the bubble (they exit the process instead).
 	Assumptions []string
+	// RaceIsViolation: a race-detector report with a frame of the library is
+	// a violation of this property (kind data-race).
+	RaceIsViolation bool
 }
 
 // KnownFinding is one entry of /verif/known_findings.json.
@@ -103,6 +108,8 @@ type WorkerStats struct {
 	WallS         float64        `json:"wall_s"`
 	Samples       []json.RawMessage `json:"samples"`
 	Note          string         `json:"note,omitempty"`
+	HarnessRaces  int            `json:"harness_race_reports"`
+	OtherRaces    int            `json:"library_race_reports_not_judged"`
 	Rule          string         `json:"rule"`
 	Components    map[string][]string `json:"components"`
 	Assumptions   []string       `json:"assumptions"`
@@ -198,8 +205,17 @@ func matchKnown(known []KnownFinding, v *Violation) *KnownFinding {
 
 // InBubble runs f inside a fresh synctest bubble (virtual clock starting at
 // 2000-01-01, advanced only when every goroutine is durably blocked).
+//
+// The bubble is entered from a helper goroutine: when the race detector
+// reported something during the bubble, synctest.Test ends with t.FailNow
+// (runtime.Goexit), which must not unwind the worker loop.
 func InBubble(t *testing.T, f func()) {
-	synctest.Test(t, func(*testing.T) { f() })
+	done := make(chan struct{})
+	go func() {
+		defer close(done)
+		synctest.Test(t, func(*testing.T) { f() })
+	}()
+	<-done
 }
 
 // DeadlockFile is where a worker leaves the plan of a run that deadlocked
@@ -222,6 +238,9 @@ func AbandonDeadlock(v Violation, trace []string) {
 	if currentCfg.Out != "" {
 		os.WriteFile(DeadlockFile(currentCfg.Out), b, 0o644)
 	}
+	if currentCfg.Mode == "trace" {
+		fmt.Println(string(b))
+	}
 	if flushStats != nil {
 		flushStats()
 	}
@@ -230,7 +249,25 @@ func AbandonDeadlock(v Violation, trace []string) {
 
 var flushStats func()
 
+// AbandonInternal gives up the process with the internal-error code.
+func AbandonInternal(msg string) {
+	fmt.Fprintf(os.Stderr, "SIM-FATAL %s; plan=%s\n", msg, currentPlanJSON)
+	if flushStats != nil {
+		flushStats()
+	}
+	os.Exit(ExitInternal)
+}
+
 var runsDone atomic.Uint64
+var harnessRaces, otherRaces int
+
+func firstLines(s string, n int) string {
+	l := strings.Split(strings.TrimSpace(s), "\n")
+	if len(l) > n {
+		l = l[:n]
+	}
+	return strings.Join(l, "\n")
+}
 
 // RunWorker is the worker main loop for one engine.
 func RunWorker[P any](t *testing.T, cfg Config, eng *Engine[P]) {
@@ -242,6 +279,21 @@ func RunWorker[P any](t *testing.T, cfg Config, eng *Engine[P]) {
 		var res *Result
 		InBubble(t, func() { res = eng.Exec(p, trace) })
 		runsDone.Add(1)
+		for _, rr := range NewRaceReports() {
+			if rr.Harness {
+				harnessRaces++
+				fmt.Fprintf(os.Stderr, "SIM-HARNESS-RACE\n%s\n", rr.Text)
+				continue
+			}
+			if eng.RaceIsViolation {
+				res.Add(eng.Property, "data-race", rr.Class(), "race detector report involving "+rr.Class()+":\n"+firstLines(rr.Text, 40))
+				if trace {
+					res.Trace = append(res.Trace, strings.Split(rr.Text, "\n")...)
+				}
+			} else {
+				otherRaces++
+			}
+		}
 		return res
 	}
 	switch cfg.Mode {
@@ -278,6 +330,8 @@ func RunWorker[P any](t *testing.T, cfg Config, eng *Engine[P]) {
 		st.AbstractSt = abs.Exact()
 		st.AbsHLL = abs.Sk.Encode()
 		st.WallS = time.Since(start).Seconds()
+		st.HarnessRaces = harnessRaces
+		st.OtherRaces = otherRaces
 		if cfg.Out != "" {
 			b, _ := json.Marshal(st)
 			os.WriteFile(cfg.Out, b, 0o644)
@@ -487,9 +541,11 @@ func shrinkChildMode[P any](cfg Config, eng *Engine[P]) {
 		os.WriteFile(cpath, cb, 0o644)
 		code, dl := RunChild(cpath, filepath.Join(dir, fmt.Sprintf("o%d.json", n)), eng.Property)
 		if code == ExitDeadlock && dl != nil && dl.Violation.Sig() == want {
+			rp.Violation = dl.Violation
+			rp.Trace = dl.Trace
 			return true
 		}
-		return code == ExitViolation && false
+		return false
 	}
 	valid := eng.Valid
 	if valid == nil {
@@ -516,8 +572,43 @@ func hashBytes(b []byte) uint64 {
 	return x
 }
 
-// RunChild executes this test binary in replay mode on the given file.
-var RunChild = func(replayPath, out, prop string) (int, *Replay) { return ExitInternal, nil }
+// RunChild executes this test binary in replay mode on the given file and
+// returns its exit code and, for a deadlocked run, the verdict it left.
+func RunChild(replayPath, out, prop string) (int, *Replay) {
+	cmd := exec.Command(os.Args[0], "-test.run", "^TestWorker$", "-test.cpu", "1", "-test.timeout", "5m")
+	env := []string{}
+	for _, e := range os.Environ() {
+		if strings.HasPrefix(e, "VERIF_MODE=") || strings.HasPrefix(e, "VERIF_REPLAY=") || strings.HasPrefix(e, "VERIF_OUT=") || strings.HasPrefix(e, "GORACE=") {
+			continue
+		}
+		env = append(env, e)
+	}
+	cmd.Env = append(env, "VERIF_MODE=replay", "VERIF_REPLAY="+replayPath, "VERIF_OUT="+out, "VERIF_PROP="+prop,
+		"GORACE=halt_on_error=0 suppress_equal_stacks=0 suppress_equal_addresses=0")
+	done := make(chan error, 1)
+	if err := cmd.Start(); err != nil {
+		return ExitInternal, nil
+	}
+	go func() { done <- cmd.Wait() }()
+	select {
+	case <-done:
+	case <-time.After(120 * time.Second):
+		cmd.Process.Kill()
+		<-done
+		return ExitInternal, nil
+	}
+	code := cmd.ProcessState.ExitCode()
+	if code == ExitDeadlock {
+		b, err := os.ReadFile(DeadlockFile(out))
+		if err == nil {
+			var rp Replay
+			if json.Unmarshal(b, &rp) == nil {
+				return code, &rp
+			}
+		}
+	}
+	return code, nil
+}
 
 // SortedKeys is a helper for deterministic iteration.
 func SortedKeys[V any](m map[string]V) []string {
